@@ -1,6 +1,7 @@
 package rules
 
 import (
+	"fmt"
 	"go/token"
 	"go/types"
 	"strings"
@@ -59,6 +60,9 @@ func matcherParts(r *core.Run, rulePart, ruleThresh string) {
 	ms := matcherFuncs(p)
 	if !r.Floor(rulePart, "function matcher (returns matched/added/removed)", len(ms), 1) {
 		return
+	}
+	for _, fn := range ms {
+		matcherDomains(r, fn, rulePart)
 	}
 	for _, fn := range ms {
 		fnm := core.FuncName(fn)
@@ -976,4 +980,107 @@ func afterLoopHeader(b *ssa.BasicBlock) bool {
 		}
 	}
 	return false
+}
+
+// matcherDomains: the rename pass works with positions in several parallel lists (the unmatched old functions and
+// their topologies, the unmatched new ones and theirs). A position is only meaningful in the lists it was taken
+// from. Decided: (a) an index field of a candidate is filled with a position of a list that the field is later used
+// to index; (b) a used-set is consulted, in the leftover loops, with positions of the list whose positions it is
+// marked with. Exchanged positions pair the wrong functions or leave a paired function in the leftovers as well.
+func matcherDomains(r *core.Run, fn *ssa.Function, rule string) {
+	fnm := core.FuncName(fn)
+	// lists are told apart by identity (two lists built by the same make(...) have the same canonical text)
+	sliceKey := func(v ssa.Value) string {
+		v = core.Resolve(v)
+		return fmt.Sprintf("%s@%p", v.Name(), v)
+	}
+	// lists each index value is used on
+	indexDomain := map[ssa.Value]map[string]bool{}
+	add := func(idx ssa.Value, list string) {
+		if indexDomain[idx] == nil {
+			indexDomain[idx] = map[string]bool{}
+		}
+		indexDomain[idx][list] = true
+	}
+	fieldDomain := map[string]map[string]bool{} // candidate field → lists indexed with it
+	core.InstrsOf(fn, func(in ssa.Instruction) {
+		ia, ok := in.(*ssa.IndexAddr)
+		if !ok {
+			return
+		}
+		if _, isSl := ia.X.Type().Underlying().(*types.Slice); !isSl {
+			return
+		}
+		add(ia.Index, sliceKey(ia.X))
+		if _, f, okF := sigField(ia.Index); okF {
+			if fieldDomain[f] == nil {
+				fieldDomain[f] = map[string]bool{}
+			}
+			fieldDomain[f][sliceKey(ia.X)] = true
+		}
+	})
+	overlap := func(a, b map[string]bool) bool {
+		for k := range a {
+			if b[k] {
+				return true
+			}
+		}
+		return false
+	}
+	keys := func(m map[string]bool) string {
+		var ks []string
+		for k := range m {
+			if i := strings.Index(k, "@"); i >= 0 {
+				k = k[:i] // the SSA register name; the address only tells lists apart
+			}
+			ks = append(ks, k)
+		}
+		sortStrings(ks)
+		return strings.Join(ks, ",")
+	}
+	n := 0
+	// (a) candidate literals
+	core.InstrsOf(fn, func(in ssa.Instruction) {
+		st, ok := in.(*ssa.Store)
+		if !ok {
+			return
+		}
+		fa, ok := st.Addr.(*ssa.FieldAddr)
+		if !ok || !strings.HasSuffix(core.Deref(fa.X.Type()).String(), "candidate") {
+			return
+		}
+		f := core.FieldName(fa.X.Type(), fa.Field)
+		fd, dv := fieldDomain[f], indexDomain[st.Val]
+		if len(fd) == 0 || len(dv) == 0 {
+			return
+		}
+		n++
+		r.Check(overlap(fd, dv), rule, fnm+"#candidate."+f+"/position-of-its-own-list", st.Pos(), "the field holds a position of a list it is used to index", "candidate."+f+" is filled with a position taken from "+keys(dv)+" but is used to index "+keys(fd)+": old and new positions are exchanged, the greedy pass pairs the wrong functions (or indexes out of range)")
+	})
+	// (b) used-sets: marked with candidate fields, tested with loop positions
+	setDomain := map[string]map[string]bool{}
+	core.InstrsOf(fn, func(in ssa.Instruction) {
+		if mu, ok := in.(*ssa.MapUpdate); ok {
+			if _, f, okF := sigField(mu.Key); okF && len(fieldDomain[f]) > 0 {
+				setDomain[sliceKey(mu.Map)] = fieldDomain[f]
+			}
+		}
+	})
+	core.InstrsOf(fn, func(in ssa.Instruction) {
+		lk, ok := in.(*ssa.Lookup)
+		if !ok {
+			return
+		}
+		sd := setDomain[sliceKey(lk.X)]
+		dv := indexDomain[lk.Index]
+		if len(sd) == 0 || len(dv) == 0 {
+			return
+		}
+		if _, _, isField := sigField(lk.Index); isField {
+			return
+		}
+		n++
+		r.Check(overlap(sd, dv), rule, fnm+"#used-set/tested-with-its-own-positions", lk.Pos(), "the used-set is consulted with positions of the list it was marked for", "a used-set marked with positions of "+keys(sd)+" is consulted with a position of "+keys(dv)+": a function that was paired is also listed as added/removed, and an unpaired one appears in no entry")
+	})
+	r.Floor(rule, "position/list agreements in the rename pass", n, 3)
 }
